@@ -63,22 +63,23 @@ type Delivery struct {
 
 // HeightPlan is the PRNG-free record of every scheduler decision for one height.
 type HeightPlan struct {
-	H            int64        `json:"h"`
-	DtMs         int64        `json:"dt_ms"`
-	Deliver      []Delivery   `json:"deliver,omitempty"`
-	Restarts     []int        `json:"restarts,omitempty"`
-	CatchUp      []int        `json:"catch_up,omitempty"`
-	FailedRounds []RoundPlan  `json:"failed_rounds,omitempty"`
-	Proposer     int          `json:"proposer"`
-	MaxTxs       int          `json:"max_txs"`
-	Absent       []int        `json:"absent,omitempty"`    // consIdxs whose precommit for h-1 this proposer did not see
-	Voters       []int        `json:"voters"`              // node idxs that prevote+precommit the block
-	Exec         []int        `json:"exec"`                // node idxs that execute the block now
-	Crashes      []CrashEvt   `json:"crashes,omitempty"`
+	H            int64               `json:"h"`
+	DtMs         int64               `json:"dt_ms"`
+	Deliver      []Delivery          `json:"deliver,omitempty"`
+	Restarts     []int               `json:"restarts,omitempty"`
+	CatchUp      []int               `json:"catch_up,omitempty"`
+	FailedRounds []RoundPlan         `json:"failed_rounds,omitempty"`
+	Proposer     int                 `json:"proposer"`
+	MaxTxs       int                 `json:"max_txs"`
+	Absent       []int               `json:"absent,omitempty"` // consIdxs whose precommit for h-1 this proposer did not see
+	Voters       []int               `json:"voters"`           // node idxs that prevote+precommit the block
+	Exec         []int               `json:"exec"`             // node idxs that execute the block now
+	Crashes      []CrashEvt          `json:"crashes,omitempty"`
 	ExtMut       map[int]ExtMutation `json:"ext_mut,omitempty"` // node idx -> Byzantine vote-extension payload
-	KeyringFail  []int        `json:"keyring_fail,omitempty"`
-	TamperProbes []ProposalMutation `json:"tamper_probes,omitempty"`
-	PermuteTxs   []int        `json:"permute_txs,omitempty"` // permutation applied to the proposer's mempool order
+	KeyringFail  []int               `json:"keyring_fail,omitempty"`
+	TamperProbes []ProposalMutation  `json:"tamper_probes,omitempty"`
+	PermuteTxs   []int               `json:"permute_txs,omitempty"` // permutation applied to the proposer's mempool order
+	ForkIntent   int                 `json:"fork_intent,omitempty"` // intent id whose effect is isolated by a counterfactual fork
 }
 
 // TxRecord is what an outside observer learns about one transaction of a block.
@@ -121,14 +122,14 @@ type Chain struct {
 
 // Stats counts what actually happened (never what was merely configured).
 type Stats struct {
-	Blocks, Txs, TxOK, TxFail                    int
-	FaultFired                                   map[string]int
-	MsgAccepted, MsgRejected                     map[string]int
-	SimulatedMs                                  int64
-	MaxGapMs, MinGapMs                           int64
-	Executions                                   int
-	Restarts, Replays                            int
-	Probe                                        map[string]int
+	Blocks, Txs, TxOK, TxFail int
+	FaultFired                map[string]int
+	MsgAccepted, MsgRejected  map[string]int
+	SimulatedMs               int64
+	MaxGapMs, MinGapMs        int64
+	Executions                int
+	Restarts, Replays         int
+	Probe                     map[string]int
 }
 
 func newStats() *Stats {
